@@ -406,6 +406,9 @@ func (g *FnGen) nilCheck(a *Addr, pos token.Pos) {
 	if strings.HasPrefix(a.Ref, "ref!") {
 		return // freshly allocated
 	}
+	if strings.HasPrefix(a.Ref, "(s-ref ") {
+		return // element of a slice: the index-in-range obligation implies non-nil (ref = 0 ==> cap = 0)
+	}
 	g.safety("nil", fmt.Sprintf("(not (= %s 0))", a.Ref), "nil dereference", pos)
 }
 
